@@ -137,6 +137,8 @@ def op_lines(ops, emit, fs):
         elif o[0] == "nest":
             for v, c_, _ in o[2]:
                 cls_of[v] = c_
+        elif o[0] == "clone":
+            cls_of[o[1]] = cls_of.get(o[2])
     for o in ops:
         if o[0] in ("new", "newc", "newraw"):
             var, cls = o[1], o[2]
@@ -177,6 +179,13 @@ def op_lines(ops, emit, fs):
             else:
                 st = '$nm = "%s"; $o%d->{$nm} = %s;' % (p, var, php_val(v))
             out.append('try { %s %s } catch (Throwable $e) { %s }' % (st, emit('"A"'), emit('"R"')))
+        elif o[0] == "clone":
+            # $oN = clone $oS; then what every declared member of the clone holds ("A" first when it is not null)
+            _, var, src = o
+            out.append('try { $o%d = clone $o%d; %s } catch (Throwable $e) { %s }' % (var, src, emit('"N"'), emit('"X"')))
+            for pn, _t in ALLCLS[cls_of[var]][2]:
+                rd = "$o%d->get_%s()" % (var, pn) if (cls_of[var], pn) in VIS else "$o%d->%s" % (var, pn)
+                out.append('try { $cv = %s; if (!is_null($cv)) { %s } %s } catch (Throwable $e) { %s }' % (rd, emit('"A"'), emit("tag($cv)"), emit('"T"')))
         elif o[0] == "concat":
             # `.=` on a declared member: first what it holds now (a read), then the compound assignment
             _, path, var, p, v = o
@@ -188,6 +197,10 @@ def op_lines(ops, emit, fs):
         elif o[0] == "callopt":
             _, var, p, v = o
             out.append('try { $o%d->opt_%s(%s); %s } catch (Throwable $e) { %s }' % (var, p, php_val(v), emit('"A"'), emit('"R"')))
+        elif o[0] == "callnamed":
+            # the argument given BY NAME
+            _, var, p, v = o
+            out.append('try { $o%d->chk_%s(x: %s); %s } catch (Throwable $e) { %s }' % (var, p, php_val(v), emit('"A"'), emit('"R"')))
         elif o[0] == "call":
             _, var, p, v = o
             out.append('try { $o%d->chk_%s(%s); %s } catch (Throwable $e) { %s }' % (var, p, php_val(v), emit('"A"'), emit('"R"')))
@@ -281,7 +294,34 @@ def coq_ops(ops, lines=None):
     held — the read just before it, itself compared with the model — and the right-hand side)"""
     res = []
     k = 0
+    inst = {}
     for o in ops:
+        if o[0] in ("new", "newc"):
+            inst[o[1]] = (o[2], o[3])
+        elif o[0] == "newraw":
+            inst[o[1]] = (o[2], None)
+        elif o[0] == "nest":
+            for v_, c_, a_ in o[2]:
+                inst[v_] = (c_, a_)
+        if o[0] == "clone":
+            # a clone = an instantiation with the SAME arguments, holding what the original held: the values the script
+            # printed for the clone's members are stored into it (each store is checked by the model as any other)
+            cls_, args_ = inst.get(o[2], (None, None))
+            inst[o[1]] = (cls_, args_)
+            res.append(('ONewRaw "%s"' % cls_) if args_ is None else ('ONew "%s" %s' % (cls_, coq_list(coq_cty(a) for a in args_))))
+            k += 1
+            for pn, _t in ALLCLS[cls_][2]:
+                ln = lines[k] if lines is not None and k < len(lines) else "null"
+                if ln == "A":
+                    vl = lines[k + 1] if k + 1 < len(lines) else "null"
+                    kind, body = vl[:1], vl[2:]
+                    val = ("i", int(body)) if kind == "i" and body.lstrip("-").isdigit() else ("a", int(body)) if kind == "a" and body.lstrip("-").isdigit() else \
+                          ("o", body.split("\\")[-1]) if kind == "o" else ("s", body)
+                    res.append('OWrite PMethod %d%%nat "%s" %s' % (o[1], pn, coq_val(val)))
+                    k += 1
+                res.append('ORead %d%%nat "%s"' % (o[1], pn))
+                k += 1
+            continue
         k0 = k
         k += len(o[2]) if o[0] == "nest" else 2 if o[0] == "concat" else 1
         if o[0] == "concat":
@@ -300,6 +340,8 @@ def coq_ops(ops, lines=None):
             res.append('OCall %d%%nat "chk_%s" %s' % (o[1], o[2], coq_val(o[3])))
         elif o[0] == "callopt":
             res.append('OCall %d%%nat "opt_%s" %s' % (o[1], o[2], coq_val(o[3])))
+        elif o[0] == "callnamed":
+            res.append('OCall %d%%nat "chk_%s" %s' % (o[1], o[2], coq_val(o[3])))
         elif o[0] == "newc":
             res.append('ONewC "%s" %s %s' % (o[2], coq_list(coq_cty(a) for a in o[3]), coq_val(o[4])))
         elif o[0] == "newraw":
@@ -379,6 +421,9 @@ def probe_all(tbl_by_name, live, rot, calls=True, extras=None):
                 # the same typed parameter declared with a `= null` default
                 for v in (VALS[k % 6], VALS[(k + 2) % 6], VALS[(k + 4) % 6]):
                     ops.append(("callopt", var, p, v))
+                # ... and the plain typed parameter given by NAME
+                for v in (VALS[(k + 1) % 6], VALS[(k + 3) % 6], VALS[(k + 5) % 6]):
+                    ops.append(("callnamed", var, p, v))
             for v in (VALS if calls else []):
                 if v[0] != "n":           # null into a typed parameter is the recorded finding: probed separately
                     ops.append(("call", var, p, v))
@@ -574,6 +619,14 @@ def seeded_ops(rng, tbl, nulls=False):
                     live.append((var, c[0], args))
                 else:
                     ops.append(("newc", 90, c[0], args, v))
+            elif r >= 0.24 and r < 0.32 and live:
+                sv, sc, sa = rng.choice(live)
+                if sa:                                   # clone of a live instance with type arguments
+                    ops.append(("clone", var, sv))
+                    live.append((var, sc, sa))
+                else:
+                    ops.append(("newraw", var, c[0], []))
+                    live.append((var, c[0], []))
             elif r >= 0.08 and r < 0.14:
                 ops.append(("newraw", var, c[0], []))    # no type arguments at all
                 live.append((var, c[0], []))
@@ -625,6 +678,27 @@ def seeded_ops(rng, tbl, nulls=False):
 
 TABLES = [[BOX, PAIR], [PAIR], [BOX, CELL], [PAIR, CELL, BOX], [BOX, PBOX], [PBOX, PPAIR, PAIR], [PPAIR, BOX], [SLOT, BOX], [SPAIR, SLOT, PAIR],
           [BBOX, BOX], [BPAIR, BBOX, PBOX]]
+
+
+ALLCLS = {c[0]: c for c in (BOX, PAIR, CELL, PBOX, PPAIR, SLOT, SPAIR, BBOX, BPAIR)}
+
+
+def enumerated_clone():
+    """`clone` of live generic instances: Box<a> (holding a value) and Box<b> are cloned; the clones, then the originals,
+    are probed: a clone is an instance with the SAME type arguments"""
+    cases = []
+    tbl = [BOX, PAIR]
+    byn = {c[0]: c for c in tbl}
+    for a in ARGS:
+        for b in ARGS:
+            if a == b:
+                continue
+            ops = [("new", 0, "Box", [a]), ("new", 1, "Box", [b]), ("write", "direct", 0, "v", matching_value(a)), ("new", 2, "Pair", [a, b]),
+                   ("clone", 3, 0), ("clone", 4, 1), ("clone", 5, 2)]
+            live = [(3, "Box", [a]), (4, "Box", [b]), (5, "Pair", [a, b]), (0, "Box", [a]), (1, "Box", [b])]
+            ops += probe_all(byn, live, len(cases))
+            cases.append({"tbl": tbl, "ops": ops, "gen": "clone", "factory": len(cases) % 2 == 1, "ns": len(cases) % 4 == 2})
+    return cases
 
 
 def seeded(rng, n):
@@ -689,6 +763,8 @@ def op_key(o):
         return "nest:%s:%d" % (o[1], len(o[2]))
     if o[0] == "concat":
         return "concat:%s:%s" % (o[1], o[4][0])
+    if o[0] == "clone":
+        return "clone"
     if o[0] == "newc":
         return "newc:%s" % o[4][0]
     if o[0] == "write":
@@ -697,14 +773,29 @@ def op_key(o):
         return "call:%s" % o[3][0]
     if o[0] == "callopt":
         return "call-default-null:%s" % o[3][0]
+    if o[0] == "callnamed":
+        return "call-named:%s" % o[3][0]
     return "read"
 
 
-def op_at(ops, pos):
-    """the generated operation that produced observation number pos (a nest op produces one per instance)"""
+def op_at(ops, pos, lines=None):
+    """the generated operation that produced observation number pos (a nest op produces one per instance, `.=` two,
+    a clone one plus one or two per declared member)"""
     k = 0
+    cls_of = {}
     for o in ops:
-        k += len(o[2]) if o[0] == "nest" else 2 if o[0] == "concat" else 1
+        if o[0] in ("new", "newc", "newraw"):
+            cls_of[o[1]] = o[2]
+        elif o[0] == "nest":
+            for v_, c_, _ in o[2]:
+                cls_of[v_] = c_
+        if o[0] == "clone":
+            cls_of[o[1]] = cls_of.get(o[2])
+            k += 1
+            for _ in ALLCLS[cls_of[o[1]]][2]:
+                k += 2 if (lines is not None and k < len(lines) and lines[k] == "A") else 1
+        else:
+            k += len(o[2]) if o[0] == "nest" else 2 if o[0] == "concat" else 1
         if pos is not None and pos < k:
             return o
     return None
@@ -713,7 +804,7 @@ def op_at(ops, pos):
 def norm_op(o):
     """JSON round trip: value pairs back to tuples"""
     o = list(o)
-    vi = {"write": 4, "newc": 4, "call": 3, "callopt": 3, "concat": 4}.get(o[0])
+    vi = {"write": 4, "newc": 4, "call": 3, "callopt": 3, "callnamed": 3, "concat": 4}.get(o[0])
     if vi is not None:
         o[vi] = tuple(o[vi])
     return tuple(o)
@@ -764,7 +855,7 @@ def main(ck):
         for c in mcases:
             c["val"] = tuple(c["val"])
     else:
-        cases = enumerated(ck.tier) + enumerated_c(ck.tier, rng) + enumerated_nest(ck.tier, rng) + enumerated_slot() + enumerated_parent() + enumerated_pairperm() + seeded(rng, 900 if ck.tier == "quick" else 30000)
+        cases = enumerated(ck.tier) + enumerated_c(ck.tier, rng) + enumerated_nest(ck.tier, rng) + enumerated_slot() + enumerated_parent() + enumerated_pairperm() + enumerated_clone() + seeded(rng, 900 if ck.tier == "quick" else 30000)
         mcases = member_cases()
         groups = conc_groups(rng, 30 if ck.tier == "quick" else 1500)
 
@@ -831,7 +922,7 @@ def main(ck):
         pos_m, pos_s = (cls[2] if cls[0] == 1 else None), (cls[3] if cls[1] == 2 else None)
         cls = [x for x in cls[:2] if x]
         pos = pos_s if pos_s is not None else pos_m
-        the_op = op_at(c["ops"], pos)
+        the_op = op_at(c["ops"], pos, obs_lines(o["out"]))
         what = op_key(the_op) if the_op is not None else "length"
         conc = c.get("gen") == "conc"
         rc_ = c["group"] if conc else c
